@@ -109,7 +109,9 @@ class IcontractRegistry(Registry):
         k = ex.ordinal("emit:" + kind)
         ex.oblige(st, "emit.%s#%d.matches_spec" % (kind, k),
                   z3.Implies(cond, z3.And(z3.Length(st.todo) > 0, st.todo[0] == ev)), kind="trace", meta={"event": kind})
-        st.todo = z3.If(cond, z3.SubSeq(st.todo, 1, z3.Length(st.todo) - 1), st.todo)
+        rest = fresh("todo", SeqEv)
+        st.assume(z3.If(cond, st.todo == z3.Concat(z3.Unit(ev), rest), st.todo == rest))
+        st.todo = rest
         st.time = z3.If(cond, st.time + 1, st.time)
 
     def register(self, spec):
